@@ -19,6 +19,9 @@ const NAME_SHAPES: &[&str] = &[
     // a rule whose name ends like a generated production / choice name
     "Stmt: StmtP1 Ta | Tb;\nStmtP1: Ta Tb | Tb;\nterminals\nTa: 'a';\nTb: 'b';\n",
     "Body: BodyC1 Ta | Tb Tb;\nBodyC1: Ta Tb | Tb;\nterminals\nTa: 'a';\nTb: 'b';\n",
+    // assignment names that are not snake case
+    "@vec\nElem: Elem Item | firstB=Item;\nItem: Ta | Tb;\nterminals\nTa: 'a';\nTb: 'b';\n",
+    "Decl: lastItem=Item nextOne=Item | X=Item;\nItem: Ta | Tb;\nterminals\nTa: 'a';\nTb: 'b';\n",
     // terminal and rule names that differ in case only / equal a kind
     "Part: part Ta | Tb;\nterminals\nTa: 'a';\nTb: 'b';\npart: 'p';\n",
     "Elem: Ta Tb {Tb} | Tb {Ta};\nterminals\nTa: 'a';\nTb: 'b';\n",
